@@ -350,6 +350,28 @@ import json as _json
 import os as _os
 
 
+# additions of the third session (generators and oracles added after the independent seeds and the mutation campaign)
+RULE_ADDITIONS = {
+    'C01': "Key objects and hashers carry generated histories: the public key is obtained through a generated constructor route (PublicKey(), decoded from a buffer that is then overwritten, one-element aggregate, projective result of RemoveBLSPublicKeys), aggregated keys have inputs with and without cached public keys, KMAC hashers were written to / reset / read before (the reference H(m) comes from a fresh twin), domain tags reach 480 bytes and a one-byte neighbour of the tag must give another signature; the expand-message hasher itself is compared with SP 800-185 KMAC128(tag || suite, 'H2C', m, 128).",
+    'C02': 'Keys through generated constructor routes; when the aggregate is the identity (total cancellation is drawn explicitly) an infinity encoding with a stray byte at each of the 47 positions must be rejected.',
+    'C03': 'A template job combines 0-4 structural entries (wrong-length / nil signature, identity key, malformed, outside G1, identity signature) with one cancelling pair / triple / swapped pair at generated positions (one case in three: the group at the highest indices).',
+    'C04': 'Input keys through generated constructor routes (projective keys included), private keys with and without cached public keys; lists of 63..300 items around the sizes 64 / 128 / 256 with an identity signature inside.',
+    'C05': 'Produced objects include the keys a plain Feldman VSS participant returns when dealt an honest vector or one whose entries were moved outside G2 by cancelling amounts.',
+    'C06': "For t <= 12 the sharing polynomial's coefficients are recovered and must be non-zero and pairwise distinct; the participant constructor must report what its inspector part refuses.",
+    'C09': 'The DKG constructors are held to their documented argument contract on tuples with a generated subset of hostile arguments; every DKG handler / ForceDisqualify call of the message feeder must return the documented error class (state-transition when not running, invalid-inputs for an origin outside [0, n), nil otherwise), origins are biased to the range edges and to the dealer, payloads include bare tags; stateless reconstruction with valid or hostile spare shares must give a verifying signature; well-formed list calls and whole DKG networks also run under the address sanitizer in the quick tier.',
+    'C11': 'The hasher object handed to Sign / Verify has a generated history (writes of lengths around the block size, resets, ComputeHash, SumHash) one time in three.',
+    'C12': 'Aggregated keys have inputs with and without cached public keys; the caller overwrites the slices Encode() / EncodeCompressed() returned and encodes again.',
+    'C13': "SHA-2's documented continuation after ComputeHash is part of the model; every digest handed out is kept uncopied and compared again after the object was used further.",
+    'C14': 'States returned by Store() of generators that stay in use are kept uncopied and must still restore to the offset at which they were taken.',
+    'C15': 'Raw reads of both PRG read paths are interleaved with the helpers; returned permutations are kept uncopied and compared again later; a deterministic frequency net (seven standard deviations, fixed ChaCha20 stream) runs next to the exact argument, which has to decline any read pattern other than the documented one.',
+    'C16': 'Identity keys come from eight constructions (constant, decoded, pk + (-pk), removal of a key from itself, of all keys at once and in two steps, public key of the zero aggregate with cold and warm inputs); keys through generated constructor routes; hashers with histories.',
+    'C17': 'Both proofs are also modified together: (p1 + T, p2 - T), (p1 + T, p2 + T), (p1 + T, -(p1 + T)) must be rejected, (-p1, -p2), (c p1, c p2) and (-p1, -pk2) keep the verdict; keys through generated constructor routes; eight identity-key constructions.',
+    'C18': 'Goroutines are released through a spin barrier; one case in three is a stampede (every goroutine starts with the same call on the same signer and share buffer); key objects are rebuilt for each of the runs of a program.',
+    'C19': "Goroutines are released through a spin barrier; one case in three is a stampede on one call; the signature list handed to batch verification must stay the caller's.",
+}
+for _pid, _txt in RULE_ADDITIONS.items():
+    PROPS[_pid]["rule"] += " Added later: " + _txt
+
 CFUZZ_TARGETS = {"C02": ["MULTI"], "C05": ["SER_E1", "SER_E2", "SER_FR"], "C07": ["POLY"], "C08": ["POLY", "G2_VECTOR"], "C09": ["SUM_VECTOR", "LAGRANGE", "G2_VECTOR", "VERIFY"]}
 
 
